@@ -10,7 +10,7 @@ git -C /repo worktree add -q --detach $WT HEAD || exit 3
 cleanup() { git -C /repo worktree remove --force $WT 2>/dev/null; git -C /repo checkout -q -- . ; }
 trap cleanup EXIT
 DEMO=$(ls $D/*_test.go | head -1)
-DEMODIR=$(grep -o 'demo_dir=[^ ]*' $D/meta.json 2>/dev/null | cut -d= -f2); DEMODIR=${DEMODIR:-.}
+DEMODIR=$(python3 -c "import json,sys; print(json.load(open('$D/agent_meta.json')).get('demo_dir','.'))" 2>/dev/null); DEMODIR=${DEMODIR:-.}
 cp $DEMO $WT/$DEMODIR/zz_demo_test.go
 ( cd $WT/$DEMODIR && go test -count=1 -run . . >/tmp/mut_demo_clean.log 2>&1 ); CLEAN=$?
 if ! git -C $WT apply $D/patch.diff 2>/tmp/mut_apply.log; then
